@@ -1,6 +1,6 @@
 #!/usr/bin/env python3
 """props.py -- per-property check drivers."""
-import os, json, time
+import os, json, time, subprocess
 import vlib, fam_copy, known
 from vlib import Report, BOS_UNKNOWN
 
@@ -1042,3 +1042,206 @@ def check_C15(rep, scr, tier, seed):
     return rep.finish('all strings of 0..3 characters over {1,2,3,4-byte} characters x dmax/len below/at/above the converted length x query form x invalid classes (lone continuation, overlong, surrogate, truncated, 0xff) x locales C.UTF-8 and C x both build configurations; single characters at every encoding-length boundary; non-trivial = distinct (function, class, locale, build, return, count)',
                       'make -C /verif/coq Properties_C15.vo + harness/check.py C15')
 REGISTRY['C15'] = check_C15
+
+# ------------------------------------------------------------------------------------------------ C17
+def gen_uni_cases(seed, tier, g, rng):
+    """strings (lists of code points) with a class label"""
+    import unicodedata as ud, itertools
+    import unicode_tr as U
+    out = []
+    keys = sorted(set(g['D']) | set(g['rD']) | set(g['rC']) | set(g['C']) | set(c for (_, _), (c, _) in g['P'].items()) | set(a for (a, b) in g['P']) | set(b for (a, b) in g['P']))
+    for cp in keys: out.append(('single-table', [cp]))
+    step = 1 if tier == 'thorough' else 23
+    for cp in range(0xac00, 0xd7a4, step): out.append(('single-hangul', [cp]))
+    allcp = [cp for cp in range(1, 0x110000) if not (0xd800 <= cp <= 0xdfff) and U.assigned14(cp) and not (0xac00 <= cp <= 0xd7a3)]
+    if tier == 'thorough': sample = allcp
+    else:
+        # all of the BMP scripts with tables sparse, every 41st elsewhere, seeded offset
+        off = rng.randrange(41); sample = [cp for i, cp in enumerate(allcp) if i % 41 == off] + [cp for cp in allcp if cp < 0x3400 and cp % 3 == off % 3]
+    for cp in sample: out.append(('single-assigned', [cp]))
+    for (a, b), c in sorted(g['rP'].items()): out.append(('pair', [a, b]))
+    # the 16-bit truncation boundary of the short composition lists: second character + 0x10000 must NOT compose
+    for (a, b), c in sorted(g['rP'].items()):
+        if b < 0x10000 and U.assigned14(b + 0x10000): out.append(('pair-high-alias', [a, b + 0x10000]))
+    # Hangul L V T triples (and L V pairs)
+    Ls = range(0x1100, 0x1113); Vs = range(0x1161, 0x1176); Ts = range(0x11a8, 0x11c3)
+    trip = list(itertools.product(Ls, Vs, Ts))
+    if tier != 'thorough': trip = rng.sample(trip, 600)
+    for t in trip: out.append(('hangul-lvt', list(t)))
+    for l in Ls:
+        for v in Vs: out.append(('hangul-lv', [l, v]))
+    # blocked composition: starter, marks that do not combine with it, then a second character that would
+    marks = sorted(g['rC'])
+    starters2 = [(a, b) for (a, b) in g['rP'] if ud.combining(chr(b)) == 0] + [(l, v) for l in (0x1100, 0x1112) for v in (0x1161, 0x1175)] + [(0xac00, 0x11a8), (0xd788, 0x11c2)]
+    for (a, b) in starters2:
+        for k in range(3 if tier == 'quick' else 8):
+            m = rng.sample(marks, rng.randrange(1, 3))
+            out.append(('blocked-starter', [a] + m + [b]))
+    for (a, b), c in rng.sample(sorted(g['rP'].items()), 300 if tier == 'quick' else len(g['rP'])):
+        cb = ud.combining(chr(b))
+        if cb == 0: continue
+        same = [m for m in marks if g['rC'][m] == cb and m != b]
+        higher = [m for m in marks if g['rC'][m] > cb]
+        lower = [m for m in marks if g['rC'][m] < cb]
+        if same: out.append(('blocked-same-class', [a, rng.choice(same), b]))
+        if higher: out.append(('unblocked-after-reorder', [a, rng.choice(higher), b]))
+        if lower: out.append(('lower-class-between', [a, rng.choice(lower), b]))
+    # random strings of starters and shuffled marks, length <= 12
+    starters = [cp for cp in keys if g['rC'].get(cp, 0) == 0 and U.assigned14(cp)] + [0x41, 0x61, 0x3b1, 0x1100, 0x1161, 0x11a8, 0xac00, 0x4e00, 0x1f600]
+    for i in range(1500 if tier == 'quick' else 12000):
+        n = rng.randrange(1, 13); s = []
+        while len(s) < n:
+            s.append(rng.choice(starters))
+            k = rng.randrange(0, 4); ms = [rng.choice(marks) for _ in range(k)]
+            s += ms
+        out.append(('random', s[:12]))
+    # long runs of marks (combining-sequence growth beyond the stack buffer)
+    for n in (9, 10, 11, 20, 40):
+        out.append(('long-marks', [0x61] + [rng.choice(marks) for _ in range(n)]))
+    return out
+
+def check_C17(rep, scr, tier, seed):
+    import unicodedata as ud, random
+    import unicode_tr as U
+    rng = random.Random(seed)
+    impl = vlib.build_impl(scr, 'O1')
+    # T2: graphs of the working tree's lookups -> Gen/UniTables.v
+    try:
+        g, problems = U.analyse(U.run_dumpers(vlib.REPO, impl, scr.dir))
+        U.write_gen(g, vlib.COQ)
+    except Exception as e:
+        rep.violation('the table translator failed on the working tree: %s' % str(e)[:300], {'key': 'translator', 'property': 'C17', 'no_failing_input': True, 'what': str(e)[:2000]})
+        g = None; problems = []
+    impls, constsd, md = setup(rep, scr, ['O1'])
+    consts = constsd['O1']
+    pr = proofs(rep, scr, 'C17')
+    def kf_or_violation(kind, cp, text, extra):
+        kid = known.classify_simple(rep, kind, cp)
+        if kid: rep.known_hits[kid] = rep.known_hits.get(kid, 0) + 1
+        else: rep.violation(text, dict({'key': (kind, cp), 'property': 'C17', 'failure': kind, 'code_point': 'U+%04X' % cp}, **extra))
+    for kind, cp, text in problems:
+        rep.evals += 1
+        kf_or_violation(kind, cp, 'table graph: ' + text, {'what': text, 'how': 'harness/unicode_tr.py runs the working tree lookups on every code point and compares with unicodedata %s' % ud.unidata_version})
+    if g is None: 
+        report_proofs(rep, pr, 'C17'); return rep.finish('-', '-')
+    rep.count('graph/decomposition entries', len(g['D'])); rep.count('graph/ccc entries', len(g['C'])); rep.count('graph/composition pairs', len(g['P'])); rep.count('graph/fold entries', len(g['F'])); rep.count('graph/hangul syllables', len(g['H']))
+    rep.evals += 0x110000 * 2
+    # out-of-range index behaviour of the internal lookups is visible only through the public entry points: below
+    strings = gen_uni_cases(seed, tier, g, rng)
+    UNKB = UNK
+    def mk(i, func, s, mode, dmax, cls):
+        src = fam_copy.enc(list(s) + [0], 4)
+        if func == 'wcsnorm_s':
+            return vlib.Case('u%d' % i, func, [('R', b'\xee' * 8), ('R', fam_copy.garbage(rng, 4 * dmax)), ('R', src)], [(1, 0), dmax, (2, 0), mode, (0, 0), UNKB], dict(cls=cls, s=list(s), mode=mode, dmax=dmax, func=func))
+        return vlib.Case('u%d' % i, func, [('R', b'\xee' * 8), ('R', fam_copy.garbage(rng, 4 * dmax)), ('R', src)], [(1, 0), dmax, (2, 0), (0, 0), UNKB], dict(cls=cls, s=list(s), mode=-1, dmax=dmax, func=func))
+    def ref(s, mode):
+        return [ord(x) for x in ud.normalize('NFC' if mode == 1 else 'NFD', ''.join(chr(c) for c in s))]
+    def refok(s): return all(U.assigned14(c) for c in s)
+    cases = []; i = 0
+    for cls, s in strings:
+        for mode in (0, 1):
+            need = len(ref(s, 0)) + 1
+            # the library asks for 4 spare elements while decomposing (documented ESNOSPC 'too small for the result buffer'):
+            # need+4 is the smallest dmax that must succeed; below it ESNOSPC is accepted, EOK must still be right
+            dm = [need + 4, need + 20, max(5, need)] if cls != 'single-assigned' else [need + 4]
+            for dmax in dm:
+                i += 1; cases.append(mk(i, 'wcsnorm_s', s, mode, dmax, cls))
+    # too small a destination: an error, no overflow
+    for cls, s in rng.sample(strings, 400):
+        need = len(ref(s, 0)) + 1
+        for dmax in sorted(set([1, 4, 5, max(need - 1, 1)])):
+            i += 1; cases.append(mk(i, 'wcsnorm_s', s, rng.randrange(2), dmax, 'small:' + ('below5' if dmax < 5 else 'short')))
+    # out of range / surrogates
+    for bad in (0x110000, 0x110001, 0x1fffff, 0x200000, 0x7fffffff, 0x80000000, 0xffffffff, 0x0011ac00, 0x00110300):
+        for s in ([bad], [0x41, bad], [bad, 0x301], [0x41, 0x301, bad], [0x1100, bad]):
+            for mode in (0, 1):
+                i += 1; cases.append(mk(i, 'wcsnorm_s', s, mode, 24, 'out-of-range'))
+        i += 1; cases.append(mk(i, 'wcsfc_s', [bad], -1, 24, 'out-of-range'))
+        i += 1; cases.append(mk(i, 'wcsfc_s', [0x41, bad, 0x42], -1, 24, 'out-of-range'))
+    for sur in (0xd800, 0xdbff, 0xdc00, 0xdfff):
+        for s in ([sur], [0x41, sur, 0x301], [sur, 0x1161]):
+            for mode in (0, 1):
+                i += 1; cases.append(mk(i, 'wcsnorm_s', s, mode, 24, 'surrogate'))
+    # folding of strings: one character each, destination sized from the announced length
+    for cp, (a, r, n, chars) in sorted(g['F'].items()):
+        if cp == 0: continue
+        i += 1; cases.append(mk(i, 'wcsfc_s', [cp], -1, 24, 'fold-single'))
+    cf = '%s/cases_uni.txt' % scr.dir
+    with open(cf, 'w') as f:
+        for c in cases: f.write(c.line() + '\n')
+    oi = vlib.run_impl(impls['O1'], cf, cases, locale='C.UTF-8')
+    # model: the same strings
+    um = vlib.VERIF + '/build/model/uni_model'
+    mo = {}
+    if os.path.exists(um):
+        inp = '\n'.join('%s %s %s' % (c.id, 'D' if c.meta['mode'] == 0 else 'C', ' '.join('%x' % x for x in c.meta['s'])) for c in cases if c.func == 'wcsnorm_s' and c.meta['cls'] not in ('out-of-range', 'surrogate')) + '\n'
+        p = subprocess.run([um], input=inp, capture_output=True, text=True, timeout=900)
+        for l in p.stdout.split('\n'):
+            if not l: continue
+            idd, rest = l.split(' ', 1) if ' ' in l else (l, '')
+            parts = rest.split('|')
+            mo[idd] = [[int(x, 16) for x in part.split()] for part in parts]
+    else:
+        rep.violation('the normalisation model could not be built from the regenerated tables', {'key': 'unimodel', 'property': 'C17', 'no_failing_input': True, 'log': open(vlib.COQ + '/make_uni.log').read()[-2000:] if os.path.exists(vlib.COQ + '/make_uni.log') else ''})
+    second = []
+    def fail(c, a, kind, text):
+        kid = known.classify(rep, c, a, kind, 'O1', consts)
+        if kid: rep.known_hits[kid] = rep.known_hits.get(kid, 0) + 1
+        else: rep.violation('%s(%s): %s' % (c.func, ' '.join('%04X' % x for x in c.meta['s']), text), {'key': (c.func, kind, c.meta['cls'].split(':')[0]), 'property': 'C17', 'failure': kind, 'string': ['U+%04X' % x for x in c.meta['s']], 'mode': {0: 'NFD', 1: 'NFC', -1: 'fold'}[c.meta['mode']],
+                            'dmax': c.meta['dmax'], 'case_line': c.line(), 'impl_outcome': a.raw, 'what': text})
+    for c in cases:
+        a = oi.get(c.id); m = c.meta; cls = m['cls']
+        rep.evals += 1; rep.count('%s/%s/%s' % (c.func, cls, {0: 'NFD', 1: 'NFC', -1: 'fold'}[m['mode']]))
+        if a is None: continue
+        if a.fault != '-': fail(c, a, 'fault', 'faulted at %s' % a.fault); continue
+        rc = int(a.ret); lenp = int.from_bytes(a.blocks[0][:8], 'little'); dest = fam_copy.dec(a.blocks[1], 4)
+        got = dest[:dest.index(0)] if 0 in dest else None
+        rep.nontrivial.add((c.func, cls, m['mode'], rc, len(got) if got is not None else -1))
+        if len(rep.samples) < 8 and rep.evals % 2503 == 7: rep.samples.append({'case': c.line()[:160], 'impl': a.raw[:200]})
+        if cls == 'out-of-range':
+            if rc == 0: fail(c, a, 'range-accepted', 'a code point above U+10FFFF was accepted (returned EOK, result %s)' % (got and ['%X' % x for x in got]))
+            continue
+        if cls == 'surrogate' or cls.startswith('small'):
+            if rc == 0 and got is None: fail(c, a, 'unterminated', 'EOK but dest is not terminated within dmax')
+            if rc == 0 and cls.startswith('small') and got is not None and refok(m['s']) and got != ref(m['s'], m['mode']): fail(c, a, 'norm-wrong', 'EOK with a too small dmax but the result %s is not the normal form' % got)
+            continue
+        if c.func == 'wcsfc_s':
+            if rc != 0: fail(c, a, 'fold-rejected', 'folding a single assigned character returned %d' % rc)
+            continue
+        if rc != 0 and m['dmax'] < len(ref(m['s'], 0)) + 5 and rc == 406: rep.count('wcsnorm_s/tight dmax: ESNOSPC accepted'); continue
+        if rc != 0: fail(c, a, 'norm-rejected', 'valid string with dmax %d (NFD length %d) returned %d' % (m['dmax'], len(ref(m['s'], 0)), rc)); continue
+        if got is None: fail(c, a, 'unterminated', 'EOK but dest is not terminated within dmax'); continue
+        if lenp != len(got): fail(c, a, 'norm-len', 'reported length %d but the result has %d characters' % (lenp, len(got)))
+        if refok(m['s']):
+            want = ref(m['s'], m['mode'])
+            if got != want: fail(c, a, 'norm-wrong', '%s gives %s, UAX #15 (unicodedata %s) gives %s' % ({0: 'NFD', 1: 'NFC'}[m['mode']], ['%04X' % x for x in got], ud.unidata_version, ['%04X' % x for x in want]))
+        if c.id in mo:
+            mm = mo[c.id]
+            if mm[0] != got: rep.mismatches.append((c, a, vlib.Outcome('%s ret=0 model=%s' % (c.id, ','.join('%x' % x for x in mm[0]))), 'O1'))
+            if len(mm) > 1 and mm[0] != mm[1]:
+                rep.violation('model: the transcribed composition pass and the UAX #15 reference composition differ on %s' % m['s'], {'key': 'refcompose', 'property': 'C17', 'string': m['s'], 'transcribed': mm[0], 'reference': mm[1]})
+        if got != m['s'] and m['dmax'] > 5 + len(got): second.append((c, got))
+    # idempotence: normalising the result again
+    c2 = []
+    for j, (c, got) in enumerate(second):
+        c2.append(mk(10**7 + j, 'wcsnorm_s', got, c.meta['mode'], c.meta['dmax'], 'again'))
+    cf2 = '%s/cases_uni2.txt' % scr.dir
+    with open(cf2, 'w') as f:
+        for c in c2: f.write(c.line() + '\n')
+    oi2 = vlib.run_impl(impls['O1'], cf2, c2, locale='C.UTF-8')
+    for c in c2:
+        a = oi2.get(c.id); rep.evals += 1; rep.count('wcsnorm_s/again/%s' % {0: 'NFD', 1: 'NFC'}[c.meta['mode']])
+        if a is None: continue
+        if a.fault != '-': fail(c, a, 'fault', 'faulted at %s' % a.fault); continue
+        dest = fam_copy.dec(a.blocks[1], 4); got = dest[:dest.index(0)] if 0 in dest else None
+        if int(a.ret) != 0 or got != c.meta['s']: fail(c, a, 'norm-idem', 'normalising a normalised string changed it: %s (returned %s)' % (got and ['%04X' % x for x in got], a.ret))
+    report_proofs(rep, pr, 'C17')
+    report_mismatches(rep, 'T1 (normalisation model vs wcsnorm_s)')
+    rep.trusted = TRUSTED_COMMON + ['translator unitables: the lookup graphs are obtained by running the working tree\'s own _decomp_s, _combin_class, _composite_cp, isExclusion, iswfc and _towfc_s_chk on every code point 0..0x10FFFF (harness/dumpers/*.c, compiled against the working tree)',
+                                    'reference graphs and the T1 oracle: Python unicodedata (UCD %s), restricted to code points assigned there; entries of the library for newer code points are outside the comparison' % ud.unidata_version,
+                                    'the composition pass of the model is a transcription of _wcsnorm_compose_s_chk (not generated); T1 compares it with the implementation and with an independently written UAX #15 composition (uni_nfc_ref) on every case',
+                                    'wcsfc_s is exercised (single characters) but its string-level special casing (final sigma, Lithuanian, Turkish) is not modelled']
+    return rep.finish('T2: every code point 0..0x10FFFF through the library lookups (decomposition, class, composition lists, exclusions, iswfc/towfc_s) against UCD %s; T1: every table code point, Hangul syllables (%s), assigned code points (%s), every composing pair, its +0x10000 alias, Hangul L/V/T triples, blocked/unblocked three-character strings, random strings <= 12, long mark runs, out-of-range and surrogate values, x NFD/NFC x dmax minimal and ample, too-small dmax; second pass for idempotence'
+                      % (ud.unidata_version, 'all' if tier == 'thorough' else 'every 23rd', 'all' if tier == 'thorough' else 'sample'),
+                      'make -C /verif/coq Properties_C17.vo + harness/check.py C17')
+REGISTRY['C17'] = check_C17
